@@ -101,6 +101,15 @@ def replay_schedule(ctx, b, known=None):
     for t, exp in enumerate(b['log'], 1):
         got = logs.get(t, [])
         if got != exp:
+            # RELATIONAL: the code differs from Pairing's solo result.  C05 is violated when the thread's result depends on
+            # the interleaving - when the code, fed this thread's program ALONE, gives something else than it gave here.
+            # (If it gives the same, the deviation from Pairing is C04's / C08's business and their checks report it.)
+            solo_stream = [mk(w, tpl, t, known) for tpl in b['prog'][t - 1][:pc.get(t, 0)]]
+            sx = run_stream(w, solo_stream)
+            spos = {j: 8 * j + t for j in range(1, len(solo_stream) + 1)}
+            if not any('err' in st for st in sx.steps) and [masked(st, spos) for st in sx.steps] == got:
+                ctx.extra['deviations_left_to_other_checks'] = ctx.extra.get('deviations_left_to_other_checks', 0) + 1
+                continue
             i = next((i for i in range(max(len(got), len(exp))) if i >= len(got) or i >= len(exp) or got[i] != exp[i]), 0)
             ctx.violation('C05/replay/thread-log',
                           'programs %s schedule %s: thread %d step %d: code %s, spec %s'
@@ -180,6 +189,7 @@ def run(ctx):
     ctx.sample({'schedule': behs[len(behs) // 3]})
     # ---- code: solo vs interleaved, and interleaved vs spec
     cases = []
+    solo_cases, baseline = [], {}
     nsets = 150 if ctx.quick else 3000
     nil = 4 if ctx.quick else 8
     solo_cmp = 0
@@ -193,10 +203,13 @@ def run(ctx):
         for t, p in enumerate(progs, 1):
             ex = run_stream(w, p)
             solos[t] = thread_view(w, p, ex, t)
+        for t, p in enumerate(progs, 1):
+            solo_cases.append(('p%d_s%d' % (i, t), w, p))
         for j in range(nil):
             stream = gen.interleave(rnd, progs, burst=rnd.choice([1, 2, 4]))
             oid = 'p%d_i%d' % (i, j)
             cases.append((oid, w, stream))
+            baseline[oid] = ['p%d_s%d' % (i, t) for t in range(1, nt + 1)]
             ex = run_stream(w, stream)
             for t in range(1, nt + 1):
                 v = thread_view(w, stream, ex, t)
@@ -275,7 +288,12 @@ def run(ctx):
                               % (nt, how, len(bad), bad[0]), {'kind': 'schedule', 'b': {}})
     ctx.extra['many_thread_counts'] = nts_big
     # the interleavings of one program set (same world) also run on separate parser objects fed alternately
-    validate_streams(ctx, cases, 'full', 'c05val', alternate_rnd=rnd)
+    # (relational: a deviation from Pairing is reported only when the programs of that set, each run ALONE, do not deviate)
+    for oid, w_, st_ in cases:
+        if oid.startswith('big'):
+            baseline[oid] = []
+    validate_streams(ctx, solo_cases, 'full', 'c05solo', report=False)        # each program alone, one parser object each
+    validate_streams(ctx, cases, 'full', 'c05val', alternate_rnd=rnd, baseline=baseline, baseline_rejected=ctx.last_rejected)
     ctx.extra['code'] = {'program_sets': nsets, 'interleavings_each': nil, 'solo_comparisons': solo_cmp}
     ctx.assumptions += ['thread-terminate pid/name and dyld string lookups read tables written by other threads by '
                         'design: masked', 'per-thread assignments compared as the ordered list of table writes made '
